@@ -117,7 +117,7 @@ Section TgtRun.
       pose proof Hchain as [_ Hnd]. rewrite (nodup_ids_eq canon b B Hnd Hbc HBc); [exact EBn | congruence]. }
     destruct (through_run_prefix merged forked start cu stopf (j_bundle c) (chain_ok_asc D D_ok') Hcons) as (D1 & D2 & ED & Hfst & Hsnd & Hall).
     fold D in ED, Hall.
-    exists D1, D2. unfold run_files. rewrite Hmode, Hcur, Hstart. cbn [N.eqb Pos.eqb].
+    exists D1, D2. unfold run_files. rewrite (file_end_not1 c merged_end) by (rewrite Hmode; reflexivity). fold fend0. rewrite Hmode, Hcur, Hstart. cbn [N.eqb Pos.eqb].
     change (if j_stop c =? 0 then 1000000000000 else j_stop c) with stopf.
     destruct (through_cursor_run merged forked start cu stopf (j_bundle c)) as [fevs r]. cbn [fst snd] in Hfst, Hsnd, Hall. subst fevs.
     destruct Hsnd as [E|E]; subst r.
